@@ -281,9 +281,9 @@ func C08(x *Ctx, r *core.Result) {
 		}
 	}
 	r.CheckFloor(c, 15)
-	wr := r.Rule("R08w", "the exported wrappers SkipValueFast, HandleArrayValues and HandleObjectValues return exactly what the machine they wrap returned (offset and error), so the machines' exact offsets are the offsets a user-written decoder sees")
-	x.wrapperPassThrough(r, wr, "SkipValueFast", "HandleArrayValues", "HandleObjectValues")
-	r.CheckFloor(wr, 3)
+	wr := r.Rule("R08w", "the exported wrappers SkipValueFast, HandleArrayValues, HandleObjectValues and UnescapeStringContent return exactly what the machine they wrap returned (value, offset and error), so the machines' exact results are what a user-written decoder sees")
+	x.wrapperPassThrough(r, wr, "SkipValueFast", "HandleArrayValues", "HandleObjectValues", "UnescapeStringContent")
+	r.CheckFloor(wr, 4)
 	r.NotDecided = append(r.NotDecided, "the universally quantified family of user-written decoders itself: the result follows by induction on nesting from R08a-c (a decoder that returns the offset a library call reported hands the machine the exact length relative to the slice it was given; the machine resumes on the value's last byte and validates what was declined) — argued in DESIGN.md, not computed")
 	r.Explain = "library-side obligations of offset composition decided on SSA (linear re-basing) and on the extracted transition systems"
 }
